@@ -124,6 +124,71 @@ def require_append_only(node, names, sinks=("cycler",)):
             raise EngineError(f"list '{k}' has {c} initialisations, expected exactly one")
 
 
+PURE_CALLS = {"abs", "int", "float", "range", "max", "min", "len"}
+PURE_NP = {"cos", "sin", "tan", "sqrt"}
+
+
+def require_simple_body(stmts, lists, lineno):
+    """syntactic side condition of the havoc set: the loop body only (re)binds local names, appends to the ghost lists and calls
+    pure functions - so `assigned_names` + the ghost lists ARE the loop's write set.  Anything else is an EngineError."""
+    def bad(n, why):
+        raise EngineError(f"loop at line {lineno}: {why} at line {getattr(n, 'lineno', '?')} - outside the loop-cut fragment (shape changed)")
+
+    def target_ok(t):
+        if isinstance(t, ast.Name):
+            return True
+        if isinstance(t, (ast.Tuple, ast.List)):
+            return all(target_ok(e) for e in t.elts)
+        return False
+
+    def expr(e):
+        for n in ast.walk(e):
+            if isinstance(n, ast.Call):
+                f = n.func
+                if isinstance(f, ast.Name) and f.id in PURE_CALLS:
+                    continue
+                if isinstance(f, ast.Attribute) and isinstance(f.value, ast.Name) and f.value.id == "np" and f.attr in PURE_NP:
+                    continue
+                bad(n, f"call of {ast.unparse(f)}")
+            elif isinstance(n, (ast.Yield, ast.YieldFrom, ast.Await, ast.Lambda, ast.NamedExpr, ast.ListComp, ast.SetComp, ast.DictComp,
+                                ast.GeneratorExp, ast.Starred)):
+                bad(n, type(n).__name__)
+
+    def rec(body):
+        for st in body:
+            if isinstance(st, ast.Assign):
+                if not all(target_ok(t) for t in st.targets):
+                    bad(st, "assignment to a non-name target")
+                expr(st.value)
+            elif isinstance(st, ast.AugAssign):
+                if not isinstance(st.target, ast.Name):
+                    bad(st, "augmented assignment to a non-name target")
+                expr(st.value)
+            elif isinstance(st, ast.If):
+                expr(st.test)
+                rec(st.body)
+                rec(st.orelse)
+            elif isinstance(st, ast.For):
+                if not target_ok(st.target) or st.orelse:
+                    bad(st, "for target / else")
+                expr(st.iter)
+                rec(st.body)
+            elif isinstance(st, ast.Expr):
+                c = st.value
+                if isinstance(c, ast.Constant):
+                    continue
+                if (isinstance(c, ast.Call) and isinstance(c.func, ast.Attribute) and c.func.attr == "append" and isinstance(c.func.value, ast.Name)
+                        and c.func.value.id in lists and len(c.args) == 1 and not c.keywords):
+                    expr(c.args[0])
+                    continue
+                bad(st, f"expression statement {ast.unparse(st)[:40]}")
+            elif isinstance(st, (ast.Pass, ast.Continue)):
+                continue
+            else:
+                bad(st, type(st).__name__)
+    rec(stmts)
+
+
 class PointLog:
     """ghost view of two append-only lists filled in lock step.
     point_inv(x, y) -> condition that every pair must satisfy (the element invariant; from the property statement)
@@ -251,6 +316,7 @@ class ForCut:
         else:
             raise EngineError(f"loop at line {st.lineno} does not iterate an integer range: {it!r}")
         g = self.ghost
+        require_simple_body(st.body, {g.xname, g.yname}, st.lineno)
         g.attach(fr)
         env = Env(fr, g)
         info = dict(getattr(self, "info", None) or {})
